@@ -6,7 +6,7 @@
    modules. A [call] names the protocol function and all its arguments; the
    protocol functions are deterministic in these and the server's behaviour. *)
 From GD Require Import Base.Prelude Model.Net Model.Valve Model.Quake Model.Unreal2 Model.Dispatch.
-From GD Require Import Gen.ModulesTable Gen.GamesTable Proofs.DispatchProofs.
+From GD Require Import Gen.ModulesTable Gen.GamesTable Proofs.DispatchProofs Proofs.EngineAgree.
 Require Import String.
 Local Open Scope string_scope.
 
@@ -40,6 +40,18 @@ Theorem c14_agree_sound : forall d m, agree d m = true ->
   forall port, call_equiv (generic_query d port) (module_call m port).
 Proof. exact agree_sound. Qed.
 Print Assumptions c14_agree_sound.
+(* calls that are equivalent in that sense behave the same on every script: either they are the same call, or both
+   are Valve queries with the same result and the same trace (the app ids of a Source engine matter only through the
+   app-id check and the three ids the parser special-cases) *)
+Theorem c14_engines_agree_same_run : forall bz port g t e e', engines_agree (g_check_app_id g) e e' = true ->
+  forall n, Valve.query bz port e (Some g) t n = Valve.query bz port e' (Some g) t n.
+Proof. exact engines_agree_same_run. Qed.
+Print Assumptions c14_engines_agree_same_run.
+Theorem c14_equivalent_calls_same_run : forall bz a b, call_equiv a b ->
+  a = b \/ (forall n, valve_run bz a n = valve_run bz b n /\ valve_run bz a n <> None).
+Proof. exact call_equiv_same_run. Qed.
+Print Assumptions c14_equivalent_calls_same_run.
+
 Theorem c14_def_ok_sound : forall hand d, def_ok hand d = true ->
   forall port t, resolve hand (dispatch d port t None) = resolve hand (proto_call d port t).
 Proof. exact generic_is_protocol_call. Qed.
